@@ -811,6 +811,14 @@ func fieldID(f *types.Var) string {
 // frozenLoad: the value loaded from addr when addr is an element/field (constant indices on this
 // path) of a package-level table that is never written after initialisation.
 func frozenLoad(c *Ctx, p *PState, addr ssa.Value, idxEval func(ssa.Value) (int64, bool)) (aval, bool) {
+	a, ok := frozenLoad0(c, p, addr, idxEval)
+	if os.Getenv("XZV_DEBUG_FROZEN") == "2" {
+		fmt.Fprintf(os.Stderr, "frozenLoad(%v in %v) = %v %v\n", addr, addr.Parent(), a, ok)
+	}
+	return a, ok
+}
+
+func frozenLoad0(c *Ctx, p *PState, addr ssa.Value, idxEval func(ssa.Value) (int64, bool)) (aval, bool) {
 	type step struct {
 		field int
 		idx   int64
@@ -829,15 +837,22 @@ func frozenLoad(c *Ctx, p *PState, addr ssa.Value, idxEval func(ssa.Value) (int6
 			continue
 		case *ssa.IndexAddr:
 			var k int64
+			// (the index itself, not its resolved form: what a φ resolves to is an expression over the
+			// values of the previous iteration, foldInt knows the value the φ has now)
 			iv := x.Index
-			if p != nil {
-				iv = p.Resolve(iv)
-			}
 			if kk, ok := foldInt(p, iv, 0); ok {
 				k = kk
+				if os.Getenv("XZV_DEBUG_FROZEN") == "2" && idxEval != nil {
+					k2, ok2 := idxEval(x.Index)
+					f, okF := factOf(p, x.Index)
+					fmt.Fprintf(os.Stderr, "   index %v: foldInt %d, term %d %v, fact %+v %v, resolved %v\n", x.Index, kk, k2, ok2, f, okF, iv)
+				}
 			} else if idxEval != nil {
 				kk, ok := idxEval(x.Index)
 				if !ok {
+					if os.Getenv("XZV_DEBUG_FROZEN") != "" {
+						fmt.Fprintf(os.Stderr, "frozenLoad: index %v of %v not constant\n", x.Index, x)
+					}
 					return aval{}, false
 				}
 				k = kk
@@ -850,12 +865,18 @@ func frozenLoad(c *Ctx, p *PState, addr ssa.Value, idxEval func(ssa.Value) (int6
 		case *ssa.Global:
 			cell := c.initialCell(x)
 			if cell == nil {
+				if os.Getenv("XZV_DEBUG_FROZEN") != "" {
+					fmt.Fprintf(os.Stderr, "frozenLoad: no initial cell for %s (frozen=%v)\n", x.Name(), c.frozenGlobal(x))
+				}
 				return aval{}, false
 			}
 			for j := len(steps) - 1; j >= 0; j-- {
 				st := steps[j]
 				if st.isIdx {
 					if cell.elems == nil || st.idx < 0 || int(st.idx) >= len(cell.elems) {
+						if os.Getenv("XZV_DEBUG_FROZEN") != "" {
+							fmt.Fprintf(os.Stderr, "frozenLoad: %s steps %v: no element %d\n", x.Name(), steps, st.idx)
+						}
 						return aval{}, false
 					}
 					cell = cell.elems[st.idx]
@@ -869,7 +890,13 @@ func frozenLoad(c *Ctx, p *PState, addr ssa.Value, idxEval func(ssa.Value) (int6
 			if cell.v.k == kConst && cell.v.c != nil {
 				return cell.v, true
 			}
+			if os.Getenv("XZV_DEBUG_FROZEN") != "" {
+				fmt.Fprintf(os.Stderr, "frozenLoad %s steps %v: cell %+v\n", x.Name(), steps, cell.v)
+			}
 			return aval{}, false
+		}
+		if os.Getenv("XZV_DEBUG_FROZEN") != "" {
+			fmt.Fprintf(os.Stderr, "frozenLoad: base %T %v\n", v, v)
 		}
 		return aval{}, false
 	}
@@ -881,11 +908,17 @@ func foldInt(p *PState, v ssa.Value, depth int) (int64, bool) {
 	if f, ok := factOf(p, v); ok && f.hasLo && f.hasHi && f.lo == f.hi {
 		return f.lo, true // (a φ keeps the exact value it was assigned on this path)
 	}
+	_, wasPhi := v.(*ssa.Phi)
 	if p != nil {
 		v = p.Resolve(v)
 	}
 	if k, ok := constInt(v); ok {
 		return k, true
+	}
+	if wasPhi {
+		// a φ resolves to the expression that arrived on the edge taken; inside a loop that expression
+		// is over the values of the previous iteration, which the facts no longer describe
+		return 0, false
 	}
 	if f, ok := factOf(p, v); ok && f.hasLo && f.hasHi && f.lo == f.hi {
 		return f.lo, true
